@@ -47,7 +47,7 @@ func memGen(prop string) func(rng *core.Rng, tier string) *harness.Plan {
 		p.Params["start_s"] = int64(20*3600 + rng.IntN(3600))
 		mint := rng.Chance(0.5)
 		if mint {
-			// after the legacy period the daily universal mint is possible
+			// late histories: other day indices for the election
 			p.Params["start_s"] += int64(1707+rng.IntN(1500)) * 86400
 		}
 		p.Params["op_period_s"] = 10000000 // the real election ticks are off: operations are injected
@@ -58,8 +58,10 @@ func memGen(prop string) func(rng *core.Rng, tier string) *harness.Plan {
 		}
 		for i := 0; i < n; i++ {
 			kinds := []string{"pledge", "accept", "remove", "ordinary", "ordinary", "restart"}
-			if mint {
-				kinds = append(kinds, "mint", "mint")
+			if prop == "C34" {
+				kinds = []string{"custodian", "custodian", "custodian", "pledge", "accept", "remove", "ordinary", "restart"}
+			} else if prop == "C28" || prop == "C29" {
+				kinds = append(kinds, "custodian")
 			}
 			op := harness.Op{Kind: "mem." + kinds[rng.IntN(len(kinds))], A: int64(rng.IntN(1000)), N: rng.IntN(9), S: fmt.Sprint("m", i)}
 			p.Ops = append(p.Ops, op)
@@ -111,6 +113,11 @@ func runMembership(prop string, p *harness.Plan, after func(m *memRig, kind stri
 				variants(m, "remove")
 			}
 			done = m.remove()
+		case "mem.custodian":
+			if variants != nil {
+				variants(m, "custodian")
+			}
+			done = m.custodian()
 		case "mem.mint":
 			if variants != nil {
 				variants(m, "mint")
@@ -244,7 +251,7 @@ func init() {
 		Gen:        memGen("C10"),
 		Exec:       c10Exec,
 		QuickRuns:  64, ThoroughRuns: 2000,
-		QuickWall: 45 * time.Second, ThoroughWall: 12 * time.Minute,
+		QuickWall: 30 * time.Second, ThoroughWall: 12 * time.Minute,
 	})
 }
 
